@@ -129,7 +129,7 @@ pub fn judge(case: &Case, su: &Startup, h: &History) -> Option<(String, String)>
     };
     let is_inplace_tmp = |p: &str| {
         let name = p.rsplit('/').next().unwrap_or(p);
-        simos::tracer::is_tmp_name(name) && inplace_dirs.contains(dir_of(p))
+        (simos::tracer::is_tmp_name(name) || name == "jaq??????") && inplace_dirs.contains(dir_of(p))
     };
     for o in &h.ops {
         let what = || {
